@@ -302,10 +302,38 @@ def _const_truth(g):
     return None
 
 
+class _ExpandUnpackedComprehension(ast.NodeTransformer):
+    """`a, b = [f(v) for v in (x, y)]`  ->  `a, b = (f(x), f(y))`  (also tuple(...)/list(...) wrappers and map(f, (x, y)))."""
+    def visit_Assign(self, node):
+        if len(node.targets) == 1 and isinstance(node.targets[0], (ast.Tuple, ast.List)):
+            n = len(node.targets[0].elts)
+            v = node.value
+            if isinstance(v, ast.Call) and isinstance(v.func, ast.Name) and v.func.id in ('tuple', 'list') and len(v.args) == 1:
+                v = v.args[0]
+            elts = None
+            if isinstance(v, (ast.ListComp, ast.GeneratorExp)) and len(v.generators) == 1 and not v.generators[0].ifs \
+                    and isinstance(v.generators[0].target, ast.Name) and isinstance(v.generators[0].iter, (ast.Tuple, ast.List)) \
+                    and len(v.generators[0].iter.elts) == n:
+                var = v.generators[0].target.id
+                elts = [nf.subst(v.elt, {var: e}) for e in v.generators[0].iter.elts]
+            elif isinstance(v, ast.Call) and isinstance(v.func, ast.Name) and v.func.id == 'map' and len(v.args) == 2 \
+                    and isinstance(v.args[1], (ast.Tuple, ast.List)) and len(v.args[1].elts) == n:
+                from ..index import clone
+                elts = [ast.Call(func=clone(v.args[0]), args=[clone(e)], keywords=[]) for e in v.args[1].elts]
+            if elts is not None:
+                new = ast.Assign(targets=node.targets, value=ast.Tuple(elts=elts, ctx=ast.Load()))
+                return ast.copy_location(new, node)
+        return node
+
+
 def ret_paths(fi):
     """Decision paths without the infeasible ones that appear when a helper returning `result or None` was inlined."""
+    from ..index import clone
+    body = [_ExpandUnpackedComprehension().visit(clone(st)) for st in fi.node.body]
+    for st in body:
+        ast.fix_missing_locations(st)
     out = []
-    for p in nf.decision_paths(fi.node.body):
+    for p in nf.decision_paths(body):
         truths = [_const_truth(g) for g in p.guards]
         if any(t is False for t in truths):
             continue
@@ -788,8 +816,55 @@ def d1_span(ctx, idx):
                 r.undecided('vector_span_comparer: reference', 'reference `%s` not recognised' % short(ref), where)
 
 
+class _Atomise(ast.NodeTransformer):
+    """Replace the calls matching the given patterns by marker names, remembering the bindings."""
+    def __init__(self, atoms):
+        self.atoms = atoms          # name -> [patterns]
+        self.found = {}
+
+    def visit_Call(self, node):
+        for name, pats in self.atoms.items():
+            for pat in pats:
+                b = nf.match(pat, node)
+                if b is not None:
+                    self.found.setdefault(name, []).append((node, b))
+                    return ast.Name(id=name, ctx=ast.Load())
+        self.generic_visit(node)
+        return node
+
+
+def select_eval(e, env):
+    """Which atom's VALUE a boolean selection expression returns (Python and/or return an operand): ('atom', name) or
+    ('const', value); env maps atom name -> truthiness."""
+    if isinstance(e, ast.Name) and e.id in env:
+        return ('atom', e.id)
+    if isinstance(e, ast.Constant):
+        return ('const', e.value)
+    if isinstance(e, ast.UnaryOp) and isinstance(e.op, ast.Not):
+        return ('const', not select_truth(select_eval(e.operand, env), env))
+    if isinstance(e, ast.BoolOp):
+        last = None
+        for v in e.values:
+            last = select_eval(v, env)
+            t = select_truth(last, env)
+            if isinstance(e.op, ast.And) and not t:
+                return last
+            if isinstance(e.op, ast.Or) and t:
+                return last
+        return last
+    if isinstance(e, ast.IfExp):
+        return select_eval(e.body if select_truth(select_eval(e.test, env), env) else e.orelse, env)
+    if isinstance(e, ast.Call) and isinstance(e.func, ast.Name) and e.func.id == 'bool' and len(e.args) == 1:
+        return ('const', select_truth(select_eval(e.args[0], env), env))
+    raise AnalysisError('selection expression `%s`' % short(e))
+
+
+def select_truth(v, env):
+    return env[v[1]] if v[0] == 'atom' else bool(v[1])
+
+
 def d1_phase(ctx, idx):
-    r = ctx.rule('D1.PHASE', 'vector_phase_comparer = in the span of the target AND of equal norm', floor=2)
+    r = ctx.rule('D1.PHASE', 'vector_phase_comparer = in the span of the target AND of equal norm', floor=3)
     with r:
         fi = idx.func(C + 'vector_phase_comparer')
         P, S, U = roles(fi)
@@ -797,32 +872,84 @@ def d1_phase(ctx, idx):
         finals = [p for p in paths if p.leaf.kind == 'ret']
         if not finals:
             raise AnalysisError('vector_phase_comparer: no returning path')
+        atoms = {'__SPAN__': ['vector_span_comparer(_P, _S, _U)'],
+                 '__MAG__': ['_U.within_tolerance(np.linalg.norm(_A), np.linalg.norm(_B))']}
+        at = _Atomise(atoms)
+        from ..index import clone
+        cases = []
         for p in finals:
-            where = lib.loc(fi, p.leaf.stmt)
-            binds = {}
-            res = nf.classify(['vector_span_comparer(_P, _S, _U) and _U.within_tolerance(np.linalg.norm(_P[0]), np.linalg.norm(_S))'],
-                              p.leaf.expr, binds)
-            construct = 'vector_phase_comparer: decision'
-            if res == nf.MATCH:
-                r.ok(construct, 'in span and equal norm', where)
-                good = is_name(binds['_P'], P) and is_name(binds['_S'], S) and is_name(binds['_U'], U)
-                if good:
-                    r.ok('vector_phase_comparer: roles', 'norm(target) is the reference', where)
-                elif is_name(binds['_P'], S):
-                    r.violation('vector_phase_comparer: roles', 'student and target are exchanged in the decision', where)
-                else:
-                    r.violation('vector_phase_comparer: roles', 'operands `%s`, `%s` are not the parameters and the submission'
-                                % (short(binds['_P']), short(binds['_S'])), where)
-            elif isinstance(res, tuple):
-                r.violation(construct, '%s: the accepted set is no longer {unit-modulus multiples of the target}' % res[1], where,
-                            expected='in_span and same_magnitude', found=short(p.leaf.expr))
+            guards = [at.visit(clone(g)) for g in p.guards]
+            leaf = at.visit(clone(p.leaf.expr))
+            cases.append((guards, leaf, p))
+        construct = 'vector_phase_comparer: decision'
+        where = lib.loc(fi, finals[-1].leaf.stmt)
+        # guards that do not speak about the two atoms (the parameter check) are left undetermined: both values tried
+        table = {}
+        undecided = None
+        for span in (True, False):
+            for mag in (True, False):
+                env = {'__SPAN__': span, '__MAG__': mag}
+                outs = set()
+                for guards, leaf, p in cases:
+                    feasible = True
+                    for g in guards:
+                        if not (lib.names_in(g) & set(env)):
+                            continue        # unrelated guard (parameter check): the path is taken for some inputs
+                        try:
+                            if not select_truth(select_eval(g, env), env):
+                                feasible = False
+                                break
+                        except AnalysisError:
+                            undecided = 'guard `%s` not understood' % short(g)
+                            feasible = False
+                            break
+                    if not feasible:
+                        continue
+                    try:
+                        outs.add(select_eval(leaf, env))
+                    except AnalysisError:
+                        undecided = 'returned expression `%s` not understood' % short(p.leaf.expr, 80)
+                table[(span, mag)] = outs
+        if undecided or any(len(v) != 1 for v in table.values()):
+            r.undecided(construct, undecided or 'the returned value is not a function of (in span, same magnitude)', where)
+        else:
+            want = lambda span, mag: ('atom', '__MAG__') if span else ('atom', '__SPAN__')
+            bad = None
+            for key, outs in sorted(table.items(), reverse=True):
+                got = next(iter(outs))
+                w = want(*key)
+                # a constant with the same truth value as the selected atom is the same verdict
+                same = got == w or (got[0] == 'const' and bool(got[1]) == {'__MAG__': key[1], '__SPAN__': key[0]}[w[1]])
+                if not same and bad is None:
+                    bad = (key, got, w)
+            if bad is None:
+                r.ok(construct, 'returns the span verdict when not in span, else the norm comparison (all 4 cases)', where)
             else:
-                b = nf.match('vector_span_comparer(_P, _S, _U) and _U.within_tolerance(np.linalg.norm(_S), np.linalg.norm(_P[0]))', p.leaf.expr)
-                if b is not None:
-                    r.violation(construct, 'the norms are compared with the student\'s norm as reference: a percentage tolerance is taken '
-                                'relative to the submission', where)
-                else:
-                    r.undecided(construct, 'decision `%s` not recognised' % short(p.leaf.expr), where)
+                (span, mag), got, w = bad
+                name = {'__SPAN__': 'the span verdict', '__MAG__': 'the norm comparison'}
+                r.violation(construct, 'with the submission %s the span of the target and its norm %s the target\'s, the comparer returns %s '
+                            'instead of %s: the accepted set is no longer {unit-modulus multiples of the target}'
+                            % ('in' if span else 'outside', 'equal to' if mag else 'different from',
+                               name.get(got[1], repr(got[1])) if got[0] == 'atom' else repr(got[1]), name[w[1]]), where,
+                            expected='in_span and same_magnitude', found=short(finals[-1].leaf.expr, 80))
+        # roles of the two atoms
+        for node, b_ in at.found.get('__SPAN__', [])[:1]:
+            good = is_name(b_['_P'], P) and is_name(b_['_S'], S) and is_name(b_['_U'], U)
+            r.check(good, 'vector_phase_comparer: span test', 'vector_span_comparer(params, student, utils)',
+                    'the span test is called as `%s`' % short(node, 80), where)
+        mags = at.found.get('__MAG__', [])
+        if not at.found.get('__SPAN__') or not mags:
+            absent(r, idx, 'vector_phase_comparer: roles', 'the %s is not part of the decision' %
+                   ('span test' if not at.found.get('__SPAN__') else 'comparison of the norms'), where)
+        for node, b_ in mags[:1]:
+            a_, bb = b_['_A'], b_['_B']
+            if nf.match('_P[0]', a_) is not None and is_name(nf.match('_P[0]', a_)['_P'], P) and is_name(bb, S) and is_name(b_['_U'], U):
+                r.ok('vector_phase_comparer: roles', 'norm(target) is the reference', where)
+            elif is_name(a_, S) and mentions(bb, P):
+                r.violation('vector_phase_comparer: roles', 'the norms are compared with the student\'s norm as reference: a percentage '
+                            'tolerance is taken relative to the submission', where)
+            else:
+                r.undecided('vector_phase_comparer: roles', 'operands `%s`, `%s` of the norm comparison not recognised' % (short(a_), short(bb)), where)
         for p in paths:
             if p.leaf.kind == 'raise' and p.guards:
                 g = p.guards[-1]
@@ -873,6 +1000,10 @@ def d1_equality(ctx, idx):
             elif mentions(b['_A'], S) and not mentions(b['_A'], P) and mentions(b['_B'], P) and not mentions(b['_B'], S):
                 r.violation(construct, 'the student\'s value is passed as the reference argument of within_tolerance: a percentage tolerance '
                             'is taken relative to the submission', where, expected='within_tolerance(expected, student)', found=short(p.leaf.expr, 80))
+            elif not mentions(b['_A'], S) and not mentions(b['_B'], S) and mentions(b['_A'], P) and mentions(b['_B'], P):
+                r.violation(construct, 'both operands of the comparison derive from the expected value (`%s`): the submission does not '
+                            'take part in the verdict, every answer is accepted' % short(p.leaf.expr, 90), where,
+                            expected='within_tolerance(transform(expected), transform(student))', found=short(p.leaf.expr, 90))
             else:
                 r.undecided(construct, 'operands of `%s` are not recognisably (expected, student)' % short(p.leaf.expr, 80), where)
 
@@ -1732,6 +1863,9 @@ def exc_mro(idx, q):
 
 def eval_guard(g, env, ctxinfo=None):
     """Truth of a canonical guard under an assignment of the policy switches and a concrete exception class."""
+    ct = _const_truth(g)
+    if ct is not None:
+        return ct         # `{...} is None`, `None is None`: a helper result meaning "raise" / "graded" was inlined
     if isinstance(g, ast.UnaryOp) and isinstance(g.op, ast.Not):
         v = eval_guard(g.operand, env, ctxinfo)
         return None if v is None else (not v)
@@ -1961,6 +2095,7 @@ def d3_shape_validation(ctx, idx):
         paths = ret_paths(fi)
         n_ret = n_raise = 0
         local = None
+        compared_expr = None
         for p in paths:
             where = lib.loc(fi, p.leaf.stmt) if p.leaf.stmt is not None else fi.loc
             eq = ne = None
@@ -1978,6 +2113,8 @@ def d3_shape_validation(ctx, idx):
             other = b['_B'] if is_name(b['_A'], ES) else b['_A']
             if isinstance(other, ast.Name):
                 local = other.id
+            else:
+                compared_expr = other
             if eq is not None:
                 n_ret += 1
                 if p.leaf.kind != 'ret':
@@ -2001,14 +2138,49 @@ def d3_shape_validation(ctx, idx):
         elif not (n_ret and n_raise) and not r.obligations:
             raise AnalysisError('validate_student_input_shape: shape test not found')
         # the shape compared is the submission's
-        if local is not None:
-            vals = lib.assigned_value(fi.node, local)
+        def shape_values(e, owner, subject, depth=0):
+            """The expressions a shape value can take: locals and helper calls (all their returns) are looked through."""
+            if depth > 3:
+                return None
+            if isinstance(e, ast.Name):
+                vals = lib.assigned_value(owner.node, e.id)
+                if not vals:
+                    return None
+                out = []
+                for v in vals:
+                    sub = shape_values(v, owner, subject, depth + 1)
+                    if sub is None:
+                        return None
+                    out += sub
+                return out
+            if isinstance(e, ast.Call) and isinstance(e.func, (ast.Attribute, ast.Name)) and nf.callee_name(e) not in ('tuple',):
+                callee = resolve_function(idx, owner, e.func)
+                if callee is None or not callee.module.name.startswith('mitxgraders'):
+                    return None
+                env = bind_call(callee, e)
+                if env is None:
+                    return None
+                out = []
+                for ret in lib.returns_of(callee.node):
+                    if ret.value is None:
+                        return None
+                    sub = shape_values(nf.subst(ret.value, env), callee, subject, depth + 1)
+                    if sub is None:
+                        return None
+                    out += sub
+                return out or None
+            return [e]
+        src = ast.Name(id=local, ctx=ast.Load()) if local is not None else compared_expr
+        if src is None:
+            raise AnalysisError('validate_student_input_shape: compared shape not found')
+        vals = shape_values(src, fi, SI)
+        if vals is None:
+            r.undecided('validate_student_input_shape: input shape', 'the compared shape `%s` cannot be traced to its source' % short(src), fi.loc)
+        else:
             ok = bool(vals) and all((nf.match('_S.shape', v) is not None and is_name(nf.match('_S.shape', v)['_S'], SI))
-                                    or nf.match('tuple()', v) is not None or nf.match('()', v) is not None for v in vals)
+                                    or nf.match('tuple()', v) is not None or (isinstance(v, ast.Tuple) and not v.elts) for v in vals)
             r.check(ok, 'validate_student_input_shape: input shape', '%s.shape (or () for numbers)' % SI,
                     'the shape compared with the expected one is `%s`, not the submission\'s' % ', '.join(short(v) for v in vals), fi.loc)
-        else:
-            raise AnalysisError('validate_student_input_shape: compared shape is not a local')
         # EqualityComparer.validate: on every path where utils offers validate_shape, the student is validated against the
         # shape of the expected value (() for numbers)
         ev = idx.func(C + 'EqualityComparer.validate')
@@ -2408,6 +2580,7 @@ MUTANTS = [
     Mutant('seeded-C16d-congruence-fmod', CMP, "    expected_reduced = expected % modulus\n    input_reduced = student_eval % modulus\n",
            "    expected_reduced = np.fmod(expected, modulus)\n    input_reduced = np.fmod(student_eval, modulus)\n", 'D1'),
     Mutant('congruence-fmod-one-side', CMP, "    input_reduced = student_eval % modulus\n", "    input_reduced = np.fmod(student_eval, modulus)\n", 'D1'),
+    Mutant('phase-guard-clause-inverted', CMP, "    return in_span and same_magnitude", "    if in_span:\n        return in_span\n    return same_magnitude", 'D1'),
     Mutant('phase-and-to-or', CMP, "    return in_span and same_magnitude", "    return in_span or same_magnitude", 'D1'),
     Mutant('phase-magnitude-dropped', CMP, "    return in_span and same_magnitude", "    return in_span", 'D1'),
     # ---- D1: MatrixEntryComparer
@@ -2462,6 +2635,8 @@ MUTANTS = [
     Mutant('seeded-C16j-eigen-residual-relative-to-v', CMP, hunks('C16j', CMP), None, 'D1'),
     Mutant('linear-expected-zero-any-entry', LIN, "        expected_zero = all(np.all(x == 0.0) for [x] in comparer_params_evals)",
            "        expected_zero = any(np.any(x == 0.0) for [x] in comparer_params_evals)", 'D1'),
+    Mutant('equality-comprehension-transforms-expected-twice', CMP, "        expected_eval = transform(expected_eval)\n        student_eval = transform(student_eval)\n",
+           "        expected_eval, student_eval = [transform(value) for value in (expected_eval, expected_eval)]\n", 'D1'),
     Mutant('linear-validation-removed', LIN, "            utils.validate_shape(student_evals[0], shape)", "            pass", 'D2'),
     Mutant('nearly-zero-strict', MF, "    return np.linalg.norm(x) <= tolerance", "    return np.linalg.norm(x) < tolerance", 'D1'),
     Mutant('nearly-zero-relative-to-itself', MF, "        tolerance = np.linalg.norm(reference) * percentage_as_number(tolerance)",
@@ -2595,5 +2770,20 @@ BENIGN = [
          "    return is_nearly_zero(residual, utils.tolerance, reference=matrix * student_eval)\n")]), None),
     Benign('linear-expected-zero-by-count-nonzero', LIN, "        expected_zero = all(np.all(x == 0.0) for [x] in comparer_params_evals)",
            "        expected_zero = np.count_nonzero([params[0] for params in comparer_params_evals]) == 0"),
+    Benign('phase-decision-by-guard-clause', CMP, "    return in_span and same_magnitude", "    if not in_span:\n        return in_span\n    return same_magnitude"),
+    Benign('phase-decision-by-conditional-expression', CMP, "    return in_span and same_magnitude", "    return same_magnitude if in_span else False"),
+    Benign('policy-helper-returning-none-for-reraise', MG, _HANDLERS_OLD,
+           "                return super().check_response(answer, student_input, **kwargs)\n"
+           "        except (ShapeError, InputTypeError, ArgumentShapeError, MathArrayError) as err:\n"
+           "            graded_incorrect = self._grade_matrix_error(err)\n            if graded_incorrect is None:\n                raise\n"
+           "            return graded_incorrect\n\n"
+           "    def _grade_matrix_error(self, err):\n        if self.config['suppress_matrix_messages']:\n"
+           "            return {'ok': False, 'msg': '', 'grade_decimal': 0}\n        if isinstance(err, ShapeError):\n"
+           "            if self.config['shape_errors']:\n                return None\n"
+           "            return {'ok': False, 'msg': str(err), 'grade_decimal': 0}\n        if isinstance(err, InputTypeError):\n"
+           "            if self.config['answer_shape_mismatch']['is_raised']:\n                return None\n"
+           "            return {'ok': False, 'grade_decimal': 0, 'msg': str(err)}\n        return None\n"),
+    Benign('equality-both-transforms-in-one-comprehension', CMP, "        expected_eval = transform(expected_eval)\n        student_eval = transform(student_eval)\n",
+           "        expected_eval, student_eval = [transform(value) for value in (expected_eval, student_eval)]\n"),
     Benign('eigen-log-statement', CMP, "    expected = eigenvalue * student_eval\n    actual = matrix * student_eval\n", "    expected = eigenvalue * student_eval\n    actual = matrix * student_eval\n    _unused = len(comparer_params_eval)\n"),
 ]
